@@ -667,17 +667,44 @@ def conversion_must_happen_rule(ctx, chk, rule):
 
     def is_conv(e):
         return isinstance(e, ast.Call) and ast.unparse(e.func) in conv and len(e.args) == 2 and ast.unparse(e.args[1]) == ps[1]
+    def judge(e, at, depth=0):
+        """(True, '') a converter's result on every path; (False, why) certainly something else (the argument itself); (None, why) not decidable"""
+        if e is None:
+            return False, "returns None"
+        if is_conv(e):
+            return True, ""
+        if isinstance(e, ast.BoolOp) and isinstance(e.op, ast.Or) or isinstance(e, ast.IfExp):
+            parts = e.values if isinstance(e, ast.BoolOp) else [e.body, e.orelse]
+            res = [judge(x, at, depth + 1) for x in parts]
+            for r_, w_ in res:
+                if r_ is not True:
+                    return r_, w_
+            return True, ""
+        if isinstance(e, ast.Name) and depth < 6:
+            if e.id in ps and not any(isinstance(x, ast.Name) and x.id == e.id and isinstance(x.ctx, ast.Store) for x in ast.walk(f.node)):
+                return False, "`%s` is the argument" % e.id
+            rd = g.reaching_defs(e.id).get(at, set())
+            if not rd:
+                return None, "`%s` has no definition here" % e.id
+            for d in rd:
+                if d == g.entry.id:
+                    return False, "`%s` may still be the argument" % e.id
+                st_ = g.nodes[d].stmt
+                if not (isinstance(st_, ast.Assign) and len(st_.targets) == 1 and isinstance(st_.targets[0], ast.Name)):
+                    return None, "`%s` is bound by `%s`" % (e.id, " ".join(ast.unparse(st_).split())[:60])
+                r_, w_ = judge(st_.value, d, depth + 1)
+                if r_ is not True:
+                    return r_, w_ or "`%s` may still be `%s`" % (e.id, " ".join(ast.unparse(st_).split())[:60])
+            return True, ""
+        if isinstance(e, ast.Name) or isinstance(e, ast.Constant):
+            return False, "returns `%s`" % ast.unparse(e)
+        return None, "returns `%s`" % " ".join(ast.unparse(e).split())[:80]
     for r in rets:
         at = next(iter(g.nodes_of(r)), None)
-        v = r.value
-        ok = is_conv(v)
-        why = "returns `%s`" % (ast.unparse(v) if v is not None else None)
-        if isinstance(v, ast.Name):
-            rd = g.reaching_defs(v.id).get(at, set())
-            bad = [d for d in rd if d == g.entry.id or not (isinstance(g.nodes[d].stmt, ast.Assign) and is_conv(g.nodes[d].stmt.value))]
-            ok = bool(rd) and not bad
-            if bad:
-                why = "`%s` may still be %s" % (v.id, "the argument" if bad[0] == g.entry.id else "`%s`" % " ".join(ast.unparse(g.nodes[bad[0]].stmt).split())[:60])
+        ok, why = judge(r.value, at)
+        if ok is None:
+            chk.error(rule, "apply_timezone line %d: %s - not a form this rule can follow" % (r.lineno, why))
+            continue
         chk.ob(rule, "apply_timezone line %d returns a converter's result for the requested zone" % r.lineno, ok,
                "%s: the value goes back without having been re-expressed in `%s`, so TIMEZONE / TO_TIMEZONE is silently not applied" % (why, ps[1]),
                key={"function": f.key, "construct": "return converted"}, file=f.file, function=f.qual, line=r.lineno,
